@@ -155,6 +155,7 @@ def run(ctx):
     reqs, resps = sweep_msgs()
     check_batch(ctx, rep, 'req', reqs)
     check_batch(ctx, rep, 'resp', resps)
+    check_batch(ctx, rep, 'resp', msggen.devinfo_boundary(rng), with_mutants=False)
     total = ctx.scale(6000, 300000)
     done = 0
     while done < total and ctx.time_left() > 20:
